@@ -124,10 +124,23 @@ func (fc *FnCtx) call(instr ssa.Instruction, c *ssa.CallCommon, st *State, g *sm
 
 	var res Val
 	cs := fc.P.Contract[name]
+	fc.callGuard[fmt.Sprintf("%s#%d", name, ord)] = g
 	switch {
 	case fc.special(name, c, args, resT, st, g, where, &res):
 	case cs != nil:
 		res = fc.applyContract(cs, name, args, resT, st, g, where)
+		if cs.Panics && !fc.dry {
+			key := fmt.Sprintf("%s#%d", name, ord)
+			pk := fc.S.Fresh("pk", smt.Bool)
+			pv := fc.S.Fresh("pv", smt.Int)
+			fc.S.Assert(smt.Ge(pv, smt.IntLit(0)), "")
+			fc.callPanicked[key] = pk
+			fc.callPanicVal[key] = pv
+			stE := st.clone()
+			save := fc.curReach
+			fc.unwind(stE, fc.S.Define("gp", smt.And(g, pk)), pv, where)
+			fc.curReach = fc.S.Define("gn", smt.And(save, smt.Not(pk)))
+		}
 	default:
 		res = fc.uncontracted(name, calleeFn, args, resT, st, g, where)
 	}
@@ -438,7 +451,10 @@ func (fc *FnCtx) builtin(b *ssa.Builtin, c *ssa.CallCommon, resT types.Type, st 
 		return Val{GoT: resT}
 	case "recover":
 		if fc.recoverVal != nil {
-			return *fc.recoverVal
+			fc.recoverCalled = smt.Or(fc.recoverCalled, g)
+			v := *fc.recoverVal
+			v.GoT = resT
+			return v
 		}
 		return fc.freshVal("recovered", resT)
 	case "min", "max":
@@ -508,7 +524,14 @@ func (fc *FnCtx) runDefers(st *State, g *smt.Term, where string) {
 		before := st.clone()
 		saveReach := fc.curReach
 		fc.curReach = dg
-		fc.deferredCall(d, c, st, dg, fc.pos(d.instr.Pos()))
+		if fn := fc.deferTarget(d); fn != nil && fn.Parent() == fc.Fn && fc.P.Contract[fc.nameOfFn(fn)] == nil {
+			res := fc.inlineClosure(fn, d.fnVal, st, dg, nil)
+			for _, e := range res.panics {
+				fc.checkPanicEnsures(st, e.guard, e.val, where)
+			}
+		} else {
+			fc.deferredCall(d, c, st, dg, fc.pos(d.instr.Pos()))
+		}
 		fc.curReach = saveReach
 		// merge: st = ite(d.guard, st, before)
 		for _, k := range smt.SortedKeys(st.H) {
